@@ -12,7 +12,8 @@ FUNCTIONS = ['circle_circle_intersection_area', 'Point.__sub__', 'Point.__neg__'
 BOUNDS = {'quick': 'R model: all centres and radii reals (|coordinate| <= 1e6, 1e-6 <= r <= 1e6), acos uninterpreted with '
                    'sin(acos t)=sqrt(1-t^2); F model (binary64, QF_FP): see the fp_* jobs',
           'thorough': 'same, longer solver budgets'}
-STUBS = ['max/min inside the module as if-then-else terms (same value as the builtins, no fork)', 'math.acos: uninterpreted on [-1,1], domain error outside; math.sin(acos t) = sqrt(1-t^2); sqrt: s>=0 and s*s=arg']
+STUBS = ['max/min inside the module as if-then-else terms (same value as the builtins, no fork)', 'math.acos / math.asin: Ackermannised uninterpreted functions on [-1,1] (domain error outside) with range, monotonicity and the principal-value identities acos t = asin(sqrt(1-t^2)) (t>=0), = pi - asin(sqrt(1-t^2)) (t<0); sin(acos t) = sqrt(1-t^2), cos(acos t) = t, sin(asin t) = t; sqrt: s>=0 and s*s=arg',
+         'binary64 model: acos/asin/sin return a fresh value in their range (sin >= 0 on [0, pi_binary64])']
 ASSUMPTIONS = ['R model for symmetry/case structure; binary64 model for totality']
 NOT_DECIDED = ['result within [0, area of the smaller disc] (needs analytic reasoning about acos)',
                'accuracy 1e-5*R^2 against the exact lens area (transcendental + libm error analysis)']
